@@ -9,6 +9,7 @@
 #include "sched/sched.hh"
 #include "lm/filter/format.hh"
 #include "lm/filter/thread.hh"
+#include "lm/filter/wrapper.hh"
 
 #include <cstring>
 #include <iostream>
@@ -35,18 +36,58 @@ struct Recorder {   // stands for MultipleARPAOutput / MultipleOutput<CountOutpu
   void Mark() { o << " M"; }
 };
 
-struct TableFilter {  // a deterministic filter: the calls for line <id> are looked up in the table
+// A deterministic filter: like the real filters it decides from the *n-gram field* it is given (here: the leading number is the
+// key into the table of calls) and passes the *line* to the output.
+const std::vector<int> &lookup(const std::vector<std::vector<int> > &calls, const StringPiece &ngram) {
+  static const std::vector<int> none;
+  unsigned long id = line_id(ngram);
+  return id < calls.size() ? calls[id] : none;
+}
+struct TableFilter {
   const std::vector<std::vector<int> > *calls;   // -1 = AddNGram (all)
-  template <class Output> void AddNGram(const StringPiece &, const StringPiece &line, Output &output) {
-    const std::vector<int> &c = (*calls)[line_id(line)];
+  template <class Output> void AddNGram(const StringPiece &ngram, const StringPiece &line, Output &output) {
+    const std::vector<int> &c = lookup(*calls, ngram);
     for (size_t i = 0; i < c.size(); ++i) { if (c[i] < 0) output.AddNGram(line); else output.SingleAddNGram(c[i], line); }
+  }
+  void Flush() const {}
+};
+// The same decisions, but computed through per-call scratch state held in the filter object, as vocab::Union::sets_,
+// vocab::Multiple::sets_ and the phrase filters' hashes_ do.  Used as the backend of the real lm::ContextFilter (CTLC cases):
+// every FilterWorker must work on its own copy.
+struct ScratchTableFilter {
+  const std::vector<std::vector<int> > *calls;
+  std::vector<int> scratch_;
+  template <class Output> void AddNGram(const StringPiece &ngram, const StringPiece &line, Output &output) {
+    scratch_.clear();
+    const std::vector<int> &c = lookup(*calls, ngram);
+    for (size_t i = 0; i < c.size(); ++i) { scratch_.push_back(c[i]); for (volatile int spin = 0; spin < 40; ++spin) {} }
+    for (size_t i = 0; i < scratch_.size(); ++i) { if (scratch_[i] < 0) output.AddNGram(line); else output.SingleAddNGram(scratch_[i], line); }
   }
   void Flush() const {}
 };
 
 struct Tok { char kind; unsigned long id; size_t len; };
 
-std::string run_case(std::istringstream &in) {
+// The reader: like util::FilePiece it hands out pointers into a window that it overwrites as it moves on, so anything the
+// threaded path keeps must be its own copy.  Line text: "<id> n<TAB>xxx..." (n-gram field "<id> n": the context is "<id>").
+template <class Ctl> void feed(Ctl &ctl, const std::vector<Tok> &toks, Recorder &out) {
+  static char window[2][512];
+  size_t turn = 0;
+  for (size_t i = 0; i < toks.size(); ++i) {
+    if (toks[i].kind == 'L') {
+      char *w = window[turn ^= 1];
+      int n = snprintf(w, 400, "%lu n", toks[i].id);
+      size_t ngram_len = n, len = n;
+      w[len++] = '\t';
+      while (len < toks[i].len && len < 500) w[len++] = 'x';
+      ctl.AddNGram(StringPiece(w, ngram_len), StringPiece(w, len), out);
+      if (i % 2) memset(window[turn ^ 1], '9', 8);     // what lay in the other half of the window is gone
+    } else if (toks[i].kind == 'E') { ctl.Flush(); out.Mark(); }
+    else if (toks[i].kind == 'F') { ctl.Flush(); }
+  }
+}
+
+std::string run_case(std::istringstream &in, bool context) {
   size_t threads, batch; uint64_t seed;
   in >> threads >> batch >> seed;
   std::vector<Tok> toks; std::vector<std::vector<int> > calls;
@@ -69,19 +110,15 @@ std::string run_case(std::istringstream &in) {
   ksched::Scheduler::Get().Reset(0);
   ksched::Scheduler::Get().SetJitter(seed);
   Recorder out;
-  TableFilter filter; filter.calls = &calls;
-  {
+  if (context) {
+    ScratchTableFilter backend; backend.calls = &calls;
+    lm::ContextFilter<ScratchTableFilter> filter(backend);
+    lm::Controller<lm::ContextFilter<ScratchTableFilter>, lm::MultipleOutputBuffer, Recorder> ctl(batch, threads * 2, threads, filter, out);
+    feed(ctl, toks, out);
+  } else {
+    TableFilter filter; filter.calls = &calls;
     lm::Controller<TableFilter, lm::MultipleOutputBuffer, Recorder> ctl(batch, threads * 2, threads, filter, out);
-    std::string text;
-    for (size_t i = 0; i < toks.size(); ++i) {
-      if (toks[i].kind == 'L') {
-        // the reader's own line buffer (FilePiece in the tool): "<id>" padded with 'x' to the requested length
-        text = std::to_string(toks[i].id);
-        if (text.size() < toks[i].len) text.append(toks[i].len - text.size(), 'x');
-        ctl.AddNGram(StringPiece(text), StringPiece(text), out);
-      } else if (toks[i].kind == 'E') { ctl.Flush(); out.Mark(); }
-      else if (toks[i].kind == 'F') { ctl.Flush(); }
-    }
+    feed(ctl, toks, out);
   }   // ~Controller: poisons and joins both pools
   ksched::Scheduler::Get().SetJitter(0);
   return "ok" + out.o.str();
@@ -97,7 +134,7 @@ int main() {
     std::istringstream in(line); std::string kind; in >> kind;
     std::string res;
     g_deadline_ms = now_ms() + 4000;
-    try { res = kind == "CTL" ? run_case(in) : "bad-case"; } catch (const std::exception &e) { res = std::string("exception ") + e.what(); }
+    try { res = kind == "CTL" ? run_case(in, false) : kind == "CTLC" ? run_case(in, true) : "bad-case"; } catch (const std::exception &e) { res = std::string("exception ") + e.what(); }
     g_deadline_ms = 0;
     std::cout << res << std::endl;
   }
